@@ -38,7 +38,7 @@
    the `_pinned` theorems.  Configurations are built with [current] (what
    run_C15 and every headline theorem use) or [pinned]. *)
 From Coq Require Import ZArith List Bool.
-From PTK Require Import Lib.Sx Lib.Py.
+From PTK Require Import Lib.Sx Lib.Py Model.C15_HistLines.
 Import ListNotations.
 Open Scope Z_scope.
 
@@ -369,6 +369,16 @@ Definition install_menu (s : state) (l : list (str * Z)) : state * Z :=
   let d := cur_doc s in
   go_to_completion (set_completions s (map (fun x => mkc (fst x) (snd x) d) l) []) (Some 0).
 
+(* start_history_lines_completion (round 6: the list is computed, see
+   Model/C15_HistLines.v).  [before] / [after]: the entries of
+   `_working_lines` below / above `working_index`; the entry AT the working
+   index is the buffer's text.  The history itself is not a state component
+   of this model (C14 models it): every call may see other lines. *)
+Definition working_lines (s : state) (before after : list str) : list str :=
+  before ++ [text s] ++ after.
+Definition hist_step (s : state) (before after : list str) : state * Z :=
+  install_menu s (hist_lines (working_lines s before after) (text s) (cur s)).
+
 (* --- completion/base.py ---------------------------------------------- *)
 Definition endswith (s e : str) : bool := startswith (rev s) (rev e).
 
@@ -572,7 +582,8 @@ Inductive label :=
 | Swap
 | Validate (ok : bool) (epos : Z) (setcur : bool)
 | Reset (t : str) (p : Z)
-| ValidateAndHandle (ok : bool) (epos : Z) (keep : bool).
+| ValidateAndHandle (ok : bool) (epos : Z) (keep : bool)
+| HistoryLines (before after : list str).
 
 Definition step (s : state) (l : label) : state * Z :=
   match l with
@@ -596,6 +607,7 @@ Definition step (s : state) (l : label) : state * Z :=
   | Validate ok epos sc => (validate_sync s ok epos sc, 0)
   | Reset t p => reset_buf s t p
   | ValidateAndHandle ok epos keep => (validate_and_handle s ok epos keep, 0)
+  | HistoryLines b a => hist_step s b a
   end.
 
 Definition apply (s : state) (l : label) : state := fst (step s l).
@@ -630,6 +642,11 @@ Definition dec_label (x : sx) : option label :=
   | L [A 17] => Some Swap
   | L [A 18; ok; A epos; sc] =>
       match as_bool ok, as_bool sc with Some ok, Some sc => Some (Validate ok epos sc) | _, _ => None end
+  | L [A 19; L b; L a] =>
+      match map_opt as_str b, map_opt as_str a with
+      | Some b, Some a => Some (HistoryLines b a)
+      | _, _ => None
+      end
   | L [A 20; t; A p] => match as_str t with Some t => Some (Reset t p) | None => None end
   | L [A 21; ok; A epos; kp] =>
       match as_bool ok, as_bool kp with Some ok, Some kp => Some (ValidateAndHandle ok epos kp) | _, _ => None end
@@ -685,9 +702,25 @@ Fixpoint run_groups (s : state) (prev : option Z) (gs : list (list label)) : lis
 Definition dec_group (x : sx) : option (list label) :=
   match x with L l => map_opt dec_label l | _ => None end.
 
+(* function-level case (19 working_lines text cursor working_index): the
+   completions start_history_lines_completion builds, with display_meta *)
+Definition sx_hist (wl : list str) (t : str) (p wi : Z) : sx :=
+  L (map (fun e => L [sx_str (hl_text e); A (- len (hl_current_line t p));
+                      match hist_meta wi e with (c, i, j) => L [sx_bool c; A i; A j] end])
+         (hist_entries wl t p)).
+
 (* case = (cfg text cursor (group ...)) ; result = (obs ...) *)
 Definition run_C15 (x : sx) : sx :=
   match x with
+  | L [A 19; L wl; t; A p; A wi] =>
+      match map_opt as_str wl, as_str t with
+      | Some wl, Some t =>
+          (* Buffer.text IS _working_lines[working_index] *)
+          if (0 <=? p) && (p <=? len t) && (0 <=? wi) &&
+             match get_nth wl wi with Some x => str_eqb x t | None => false end
+          then sx_hist wl t p wi else bad_case
+      | _, _ => bad_case
+      end
   | L [c; t; A p; L gs] =>
       match dec_cfg c, as_str t, map_opt dec_group gs with
       | Some c, Some t, Some gs =>
